@@ -879,7 +879,14 @@ extractSHRT (
     Vec3<T>&           t,
     bool               exc /* = true */)
 {
-    return extractSHRT (mat, s, h, r, t, exc, r.order ());
+    // The Vec3 overload returns the angles as an XYZ vector (rotation about
+    // X in .x, about Y in .y, about Z in .z), whereas an Euler stores them
+    // in the ijk order of its own Order: convert instead of writing the XYZ
+    // vector through the Vec3 base class.
+    Vec3<T> xyz;
+    if (!extractSHRT (mat, s, h, xyz, t, exc, r.order ())) return false;
+    r.setXYZVector (xyz);
+    return true;
 }
 
 template <class T>
